@@ -85,6 +85,11 @@ CLAIMED = {
         "level": "Decides the small table-like clauses X1-X3 exhaustively (all arms, all call sites); what a particular script's tests do is not decided.",
         "note": "Partial (thin): clauses X1-X3.",
     },
+    "C13": {
+        "technique": "dominance/ordering of the lookups in resolve_name on MIR (declarations < recurse test < imports < parent, hit returns early), HIR checks of the path walker's loop-carried state, ADT/derive table of the name key, must-pass-through in imports(), cross-site agreement of discovery and export literals",
+        "level": "Decides the lookup order and path-walking rules stated by the property as structural facts of the two functions that implement them, plus key identity and literal agreement; what each reference resolves to in a given tree is not decided.",
+        "note": "Partial (thin): clauses R1-R6.",
+    },
 }
 _PENDING = "check under construction in this session; not yet claimed"
 NOT_APPLICABLE = {p: _PENDING for p in
